@@ -569,8 +569,10 @@ impl<K: CacheKey + 'static> AsyncCache<K> for MemoryCache<K> {
         });
         #[cfg(feature = "verif-hooks")]
         crate::verif_hooks::sched_point("memory.clear.before_counters");
-        self.entry_count.fetch_sub(removed_entries, Ordering::Relaxed);
-        self.memory_usage.fetch_sub(removed_bytes, Ordering::Relaxed);
+        self.entry_count
+            .fetch_sub(removed_entries, Ordering::Relaxed);
+        self.memory_usage
+            .fetch_sub(removed_bytes, Ordering::Relaxed);
         self.metrics.reset();
         Ok(())
     }
